@@ -1,7 +1,12 @@
 """Front end used by ./check: imports harness/<cxx>.py and calls its main() under a safety net.
 
 An exception that escapes a harness is not allowed to end a check with a bare traceback:
-  * InfraError, or a crash that does not involve /repo's code at all → `INFRA-ERROR`, exit 2;
+  * InfraError raised by the tooling layer (common.py: lake, model driver, extractor), or a crash that does
+    not involve /repo's code at all → `INFRA-ERROR`, exit 2;
+  * InfraError raised by a property's own harness = a sanity condition on what the implementation did that
+    holds on every run of the unchanged tree (set-up commit reached the storage, a worker returned a result,
+    a scheduled run did not deadlock, a tid lies on the model's grid …) → the correspondence could not be
+    established: `VIOLATION … no-failing-input-found` (replay file: the condition and the traceback);
   * an unexpected exception whose traceback passes through $ZODB_REPO/src (the implementation did
     something the correspondence harness has never seen on the unchanged tree) → the correspondence is
     broken: the harness could not finish its failing-input search, so per DESIGN 1.3 step 6 this is
@@ -91,8 +96,28 @@ def main():
     except SystemExit:
         raise
     except common.InfraError as e:
-        print('INFRA-ERROR', e)
-        sys.exit(2)
+        tb = traceback.format_exc()
+        frames = traceback.extract_tb(sys.exc_info()[2])
+        site = os.path.basename(frames[-1].filename) if frames else ''
+        if site in ('common.py', 'extract.py', 'run.py') or not site.startswith('c'):
+            # tooling (lake, the model driver, the extractor): nothing is known about the implementation
+            print('INFRA-ERROR', e)
+            sys.exit(2)
+        # raised by the property's own harness: a sanity condition on what the implementation did
+        # (set-up commit, worker result, scheduler run, tid grid …) that holds on every run of the
+        # unchanged tree does not hold — the correspondence could not be established
+        os.makedirs(os.path.join(common.OUT, 'replay'), exist_ok=True)
+        path = os.path.join(common.OUT, 'replay', '%s-harness-sanity.json' % pid)
+        with open(path, 'w') as f:
+            json.dump(dict(property=pid, kind='no-failing-input-found', signature='harness-sanity-condition',
+                           what='a sanity condition of the correspondence harness on the behaviour of the '
+                                'implementation (always true on the unchanged tree) failed: %s' % (e,),
+                           traceback=tb[-6000:], argv=sys.argv[1:],
+                           seed=os.environ.get('VERIF_SEED', '0')), f, indent=1)
+        print('harness sanity condition failed:', e)
+        print('VIOLATION property=%s replay=%s no-failing-input-found' % (pid, path))
+        sys.stdout.flush()
+        sys.exit(1)
     except BaseException:      # noqa: B902
         tb = traceback.format_exc()
         repo_src = os.path.join(os.path.realpath(common.REPO), 'src') + os.sep
